@@ -183,6 +183,10 @@ func (e *Env) unaryHandler(i int, ctx context.Context, dec func(interface{}) err
 			e.where("handler:waitctx")
 			waitDone(ctx, e.native)
 			e.where("")
+		case op[0] == 'N':
+			// nested call: an in-process (or HTTP) unary call made from inside this handler with the handler's context
+			j, _ := strconv.Atoi(op[1:])
+			e.nestedInvoke(j, ctx, tn)
 		case strings.HasPrefix(op, "ret:"):
 			err := retErr(op, ctx)
 			if err != nil {
@@ -300,6 +304,26 @@ func (e *Env) handlerOps(i int, tn string, stream grpc.ServerStream, ops []strin
 		}
 	}
 	return nil
+}
+
+// nestedInvoke makes unary call j from inside a handler, with that handler's context.
+func (e *Env) nestedInvoke(j int, ctx context.Context, tn string) {
+	rr := e.rec.RPCs[j]
+	var resp Msg
+	rr.SendAttempt = append(rr.SendAttempt, tag(j, "c", 0))
+	e.where("handler:nested-Invoke")
+	c := &cli{}
+	e.clis[j] = c
+	err := e.ch.Invoke(ctx, e.method(j), newMsg(j, "c", 0), &resp, grpc.Header(&c.hdr), grpc.Trailer(&c.trl))
+	e.where("")
+	rr.RecvRes = append(rr.RecvRes, es(err))
+	if err == nil {
+		rr.CliRecv = append(rr.CliRecv, string(resp.Payload))
+	} else {
+		rr.Finals = append(rr.Finals, es(err))
+	}
+	rr.FinalErr = es(err)
+	e.rec.ev(tn, "nested-Invoke", es(err))
 }
 
 // cli is the client-side state of one RPC, shared by its client tasks.
@@ -552,6 +576,9 @@ func (e *Env) body() {
 	}
 	for i := 1; i < len(e.sc.RPCs); i++ {
 		i := i
+		if len(e.sc.RPCs[i].Client) == 0 {
+			continue // driven from inside another RPC's handler ("N<i>")
+		}
 		e.goTask(fmt.Sprintf("c%d", i), func() { e.runRPC(i) })
 	}
 	e.runRPC(0)
